@@ -22,10 +22,21 @@ X deepval(T const& x)
         constexpr int lb = std::numeric_limits<L>::digits;
         X v;
         bool neg = cnl::numbers::signedness_v<T> && (r[r.size() - 1] >> (lb - 1));
-        // two's complement -> sign-magnitude via X arithmetic (value = sum limb_i 2^(lb i) - 2^W if negative)
-        for (size_t i = r.size(); i-- > 0;) v = shl(v, lb) + X::from_u((u128)r[i]);
-        if (neg) v = v - xpow2((unsigned)(r.size() * lb));
-        return v;
+        // two's complement -> sign-magnitude, limb by limb (magnitude of a negative value = ~bits + 1), so that a full 256-bit
+        // storage does not need 2^256 in the oracle's own 256 bits
+        unsigned carry = 1;
+        std::vector<u128> mag(r.size());
+        for (size_t i = 0; i < r.size(); ++i) {
+            u128 limb = (u128)r[i];
+            if (neg) {
+                limb = ((~limb) & ((((u128)1) << lb) - 1)) + carry;
+                carry = (unsigned)(limb >> lb);
+                limb &= (((u128)1) << lb) - 1;
+            }
+            mag[i] = limb;
+        }
+        for (size_t i = r.size(); i-- > 0;) v = shl(v, lb) + X::from_u(mag[i]);
+        return neg ? -v : v;
     } else
         return X::of(x);
 }
@@ -39,9 +50,17 @@ T deep(X const& raw)
         using L = std::remove_cvref_t<decltype(a[0])>;
         constexpr int lb = std::numeric_limits<L>::digits;
         X v = raw;
-        if (v.neg) v = v + xpow2((unsigned)(a.size() * lb));
+        bool neg = v.neg;
+        v.neg = false;  // magnitude; negative values are written as ~(magnitude) + 1, limb by limb
+        unsigned carry = 1;
         for (size_t i = 0; i < a.size(); ++i) {
-            a[i] = (L)(v.m[0] & (uint64_t)(~(L)0));
+            u128 limb = (u128)(v.m[0] & (uint64_t)(~(L)0));
+            if (neg) {
+                limb = ((~limb) & ((((u128)1) << lb) - 1)) + carry;
+                carry = (unsigned)(limb >> lb);
+                limb &= (((u128)1) << lb) - 1;
+            }
+            a[i] = (L)limb;
             v = shr_mag(v, lb);
         }
         return t;
@@ -70,6 +89,7 @@ struct Ctx {
     X model;            // value a known defect model predicts (valid when has_model)
     bool has_model = false;
     bool pending = false, inexact = false;
+    bool exact_outside_ok = false;  // the step's result type cannot widen (run-time shift): the exact value is accepted even outside the declared range
     int over = 0, er = 0;
     X want, hi, lo;
 };
@@ -104,7 +124,11 @@ R verify(R const& r)
     if (x_overflowed) throw Stop{};  // oracle precision exceeded: judge nothing
     int er = ctx->er;
     std::string where = "step " + std::to_string(ctx->step) + ": " + ctx->operands;
-    if (ctx->over) {
+    if (ctx->over && ctx->exact_outside_ok && got == ctx->want) {
+        // "yields the exact mathematical result": accepted; later steps start from this value
+        ctx->t->classes["exact_result_outside_declared_range(info)"]++;
+        ctx->nontrivial = true;
+    } else if (ctx->over) {
         ctx->nontrivial = true;
         if (ctx->tags.overflow == 0) {
             X clamp = ctx->over > 0 ? ctx->hi : ctx->lo;
@@ -188,6 +212,37 @@ template<class A> auto neg(A const& a)
     val(a, an, ad);
     prepare<decltype(-a)>(-an, ad, false);
     return verify(-a);
+}
+// shifts by a run-time count: the result type is the operand's, so << can overflow; >> is the arithmetic (floor) shift
+template<class A> auto lsh(A const& a, int c)
+{
+    begin("<<", a, a);
+    ctx->operands += " by " + std::to_string(c);
+    X an, ad;
+    val(a, an, ad);
+    prepare<decltype(a << c)>(shl(an, (unsigned)c), ad, false);
+    ctx->exact_outside_ok = true;
+    auto r = a << c;
+    auto v = verify(r);
+    ctx->exact_outside_ok = false;
+    return v;
+}
+template<class A> auto rsh(A const& a, int c)
+{
+    begin(">>", a, a);
+    ctx->operands += " by " + std::to_string(c);
+    X an, ad;
+    val(a, an, ad);
+    using R = decltype(a >> c);
+    prepare<R>(an, shl(ad, (unsigned)c), true);
+    {   // floor, whatever the type's rounding mode
+        constexpr int er = exp_of<R>::value;
+        X n = an, d = shl(ad, (unsigned)c);
+        if (er >= 0) d = shl(d, er); else n = shl(n, -er);
+        ctx->want = fdiv(n, d);
+        ctx->over = ctx->want > ctx->hi ? 1 : ctx->want < ctx->lo ? -1 : 0;
+    }
+    return verify(a >> c);
 }
 template<class T, class A> T conv(A const& a)
 {
@@ -295,6 +350,7 @@ void run_chain(char const* desc, Tags tags, std::vector<std::vector<X>> const& l
         c.step = 0;
         c.nontrivial = false;
         c.pending = false;
+        c.exact_outside_ok = false;
         bool stopped = false;
         x_overflowed = false;
         Outcome o = guarded([&] {
